@@ -11,6 +11,26 @@ CLAIMED = {
             "Seeded search over interleavings (object-store-request granularity) of 2..4 real ObjectStoreMetadataClients with injected request failures (before/after effect) and delays; every catalog.json version ever written is checked to be exactly one model step of exactly one in-flight operation, with index/map agreement on every version. Sampling, not proof: the quantifier is all schedules x histories, which only a search can approach.",
             "Trusts object_store::memory::InMemory as the model of S3 conditional PUT; a lost response (fail-after-effect) may legitimately leave one applied version behind a failed call.",
             "DESIGN.md section 3 C02"),
+    "C19": ("cluster", "exploration",
+            "deterministic simulation: seeded membership/health/load histories on the virtual clock (real health-check task), route_write under a poll budget; eligibility, termination and assignment-stability oracles",
+            "Real NodeRegistry + run_health_checks + ShardAssignment (all three strategies) + DistributedWriteRouter driven through generated histories (register, heartbeat loss, drain, load, remove, rebalance, time); every route_write must return within 1000 polls with a node whose snapshot can accept writes and that equals the assignment map's single entry, or an error; a shard may move only if its previous node cannot accept writes now or a rebalance ran since.",
+            "Events are applied one at a time; lock-level races on a multi-thread runtime are not explored.",
+            "DESIGN.md section 3 C19"),
+    "C03": ("compaction", "exploration",
+            "deterministic simulation with fault injection: 1..2 real Compactor::run loops interleaved at request level with store faults, crashes/restarts and stalls past the lease TTL; row-id conservation checked on every catalog version and at quiescence",
+            "Generated datasets (levels 0..2, 1..3 buckets), both catalog backends, two compactors with independent 60 s catalog caches (stale candidate lists), lease expiry under a stalled live holder, crash at any request; on every catalog.json version every original row is reachable through a listed chunk whose file exists at that instant; after all compactors stopped the reachable multiset equals the original exactly; every merge's target is one level above its highest source.",
+            "Rows inside retention; homogeneous schema per dataset; quiescence = all compactor loops stopped (cycle in flight allowed to finish fault-free).",
+            "DESIGN.md section 3 C03"),
+    "C20": ("compaction", "exploration",
+            "deterministic simulation: repeated real compaction cycles on generated static datasets/configurations in virtual time; proved cycle bound as the convergence oracle plus version-history level checks",
+            "N+2 calls of run_compaction_cycle (N = initial chunk count; each merge replaces >= 2 chunks by 1, so some cycle among the first N must change nothing) on datasets with random level mixes, sizes, buckets and thresholds, both backends: a cycle that changes nothing must be followed only by cycles that change nothing; candidate groups of one cycle are pairwise disjoint; every merge in the version history retires chunks of one level; no path's level ever decreases.",
+            "Static dataset; levels observable only on the object-store backend; configuration space sampled, not enumerated.",
+            "DESIGN.md section 3 C20"),
+    "C09": ("compaction", "exploration",
+            "deterministic simulation: real Compactor loop + real QueryNode sharing a pin registry, request-level interleaving of GC with queries, compactor crash/restart, wall-clock jumps, virtual hours; every DELETE checked at its effect instant against catalog history, grace, pins and retention cut-off",
+            "Store request log as monitor: each physical delete of a data file must concern a file unreferenced by every catalog version current during [t-grace, t], not pinned at the effect instant, and previously listed; each retention removal (catalog transition dropping chunks without a replacement) must concern a chunk whose newest row is older than now-retention-30 s; deletions persisted when the compactor died must be carried out after restart (bounded liveness, not judged after an injected backward clock jump, which legitimately postpones GC).",
+            "Compactor and query node share a process; object-store catalog backend; only backward clock jumps are injected (BoundedClock claims to mask those).",
+            "DESIGN.md section 3 C09"),
     "C05": ("ingest", "fault_enumeration",
             "deterministic simulation of the WAL on a fault-injecting disk shim: seeded operation histories with crashes, plus a systematic sweep cutting the final write at every byte offset; reference-log oracle",
             "Real WriteAheadLog + flushed_seq persistence on a synchronous tmpfs shim whose every file operation can fail, write short, be torn at a byte, or kill the process. Random histories (append/rotate/truncate/persist/reopen, 1..4 crash-reopen rounds) and, for N generated histories, one run per byte offset 0..=T of the final append plus 'die right after creating the rotated segment' (enumeration of that fault position, sampling of histories). After every reopen the recovered log must equal the reference log minus a monotone prefix of truncated entries, an in-doubt entry is present iff written completely, payloads decode to the appended batches, every seq/next_seq exceeds all acknowledged seqs and the recorded flushed mark.",
